@@ -283,11 +283,19 @@ func (chain *groupChain) save(group *types.Group) error {
 		return err
 	}
 
+	// The group itself first (unreferenced until the index points at it), then the three index
+	// entries in ONE atomic batch: a crash between any two writes leaves a chain that start-up
+	// reads back consistently (either without or with the new group).
 	chain.groups.Put(group.Id, data)
-	chain.groups.Put([]byte(lastGroupKey), group.Id)
-	chain.groups.Put(generateKey(chain.count), group.Id)
+	batch := chain.groups.NewBatch()
+	batch.Put([]byte(lastGroupKey), group.Id)
+	batch.Put(generateKey(chain.count), group.Id)
+	batch.Put([]byte(groupCountKey), utility.UInt64ToByte(chain.count+1))
+	if err = batch.Write(); err != nil {
+		logger.Errorf("Write group index error:%s", err.Error())
+		return err
+	}
 	chain.count++
-	chain.groups.Put([]byte(groupCountKey), utility.UInt64ToByte(chain.count))
 	chain.lastGroup = group
 	logger.Debugf("Add group on chain success! Group id:%s,group pubkey:%s", hex.EncodeToString(group.Id), hex.EncodeToString(group.PubKey))
 
